@@ -17,7 +17,7 @@ import numpy
 from collada import primitive
 from collada.common import E
 from collada.common import DaeIncompleteError, DaeMalformedError
-from collada.util import toUnitVec, checkSource, normalize_v3, dot_v3
+from collada.util import toUnitVec, checkSource, normalize_v3, dot_v3, parseUIntArray
 
 
 class Triangle(object):
@@ -220,7 +220,7 @@ class TriangleSet(primitive.Primitive):
             if indexnode.text is None or indexnode.text.isspace():
                 index = numpy.array([], dtype=numpy.int32)
             else:
-                index = numpy.fromstring(indexnode.text, dtype=numpy.int32, sep=' ')
+                index = parseUIntArray(indexnode.text)
             index[numpy.isnan(index)] = 0
             return index
 
